@@ -57,6 +57,7 @@ COLUMN_RICH_JOIN = dict(COLUMN_PROFILE, top={"from": ["join"], "rel": ["base_ali
 COLUMN_RICH_DERIVED = dict(COLUMN_PROFILE, top={"from": ["join"], "rel": ["derived"], "nitems": [2], "colref_style": ["qual"]})
 COLUMN_RICH_CTE = dict(COLUMN_PROFILE, top={"query": ["with"], "from": ["join"], "rel": ["cte_alias", "base_alias"], "nitems": [2], "colref_style": ["qual"]})
 COLUMN_RICH_STAR = dict(COLUMN_PROFILE, top={"from": ["join"], "rel": ["derived"], "nitems": [2], "items": ["qstar"], "colref_style": ["qual"]})
+COLUMN_LCA = dict(COLUMN_PROFILE, items=COLUMN_PROFILE["items"] + ["lca"], top={"nitems": [2], "items": ["lca"]})
 COLUMN_RICH_SETOP = dict(COLUMN_PROFILE, top={"query": ["union"], "rel": ["derived"], "colref_style": ["qual"]})
 CENTRES = {"setop": COLUMN_RICH_SETOP, "simple": COLUMN_PROFILE, "join": COLUMN_RICH_JOIN, "derived": COLUMN_RICH_DERIVED, "cte": COLUMN_RICH_CTE, "star": COLUMN_RICH_STAR}
 
@@ -272,6 +273,11 @@ def gen_item(ctx: Ctx, rels, depth: int, path: str, no_star=False):
         return {"e": ["window", cr(0), cr(1), cr(2)], "alias": ctx.xname()}
     if k == "coalesce2":
         return {"e": ["coalesce", [cr(0), cr(1)]], "alias": ctx.xname()}
+    if k == "lca":  # lateral column alias reference: an expression over the alias of the previous select item
+        prev = getattr(ctx, "prev_alias", None)
+        if prev and ctx.is_top(path):
+            return {"e": ["arith", ["col", None, prev], cr(0)], "alias": ctx.xname(), "lca": True}
+        return {"e": cr(0), "alias": ctx.xname()}
     if k == "literal":
         return {"e": ["lit"], "alias": ctx.xname()}
     sub = {"ctes": [], "branches": [gen_select(ctx, depth - 1, path + ".sub", arity=1, no_star=True)], "ops": []}
@@ -309,7 +315,13 @@ def gen_select(ctx: Ctx, depth: int, path: str, arity=None, no_star=False):
     frm = gen_from(ctx, depth, path + ".from")
     n = arity if arity is not None else ctx.alts("nitems", path)
     no_star = no_star or (arity is not None and arity > 1)
-    items = [gen_item(ctx, frm["rels"], depth, f"{path}.item[{i}]", no_star=no_star) for i in range(n)]
+    items = []
+    ctx.prev_alias = None
+    for i in range(n):
+        it = gen_item(ctx, frm["rels"], depth, f"{path}.item[{i}]", no_star=no_star)
+        items.append(it)
+        ctx.prev_alias = it["alias"] if it["alias"] and it["e"][0] != "star" else ctx.prev_alias
+    ctx.prev_alias = None
     if len(items) > 1 and any(it["e"][0] == "star" for it in items) and arity is not None:
         items = [it for it in items if it["e"][0] != "star"] or items[:1]
     where = gen_pred(ctx, depth, path + ".where")
